@@ -8,7 +8,8 @@ package hash
 // that holds exactly when the components are pairwise Eqv, and Eqv-equal
 // values have equal hashes.  No clause fixes the numeric value of a hash:
 // any deterministic function compatible with Eqv is acceptable.
-// Seq / Slice / String (loops) and Bytes (external functions) are not covered.
+// Seq / Slice / String (loops) are not covered.  Bytes is covered relative to trusted models of bytes.Equal
+// (its definition) and hash/fnv (Sum32 is a function of the bytes written).
 
 //@ import "github.com/csgura/fp/internal/veriflaws"
 //@ import "github.com/csgura/fp/hlist"
@@ -187,3 +188,17 @@ package hash
 //@   ensures Tuple{N}(<<i=1..N|, |h$i>>).Eqv(x, y) ==> Tuple{N}(<<i=1..N|, |h$i>>).Hash(x) == Tuple{N}(<<i=1..N|, |h$i>>).Hash(y)
 //@   tag hash
 //@ schema end
+//
+// hash.Bytes: bytes.Equal + FNV (trusted models, see the evidence file)
+//@ lemma bytesHashable(a, b, c []byte)
+//@   prop C09
+//@   ensures Bytes.Eqv(a, a)
+//@   tag reflexive
+//@   ensures Bytes.Eqv(a, b) == Bytes.Eqv(b, a)
+//@   tag symmetric
+//@   ensures Bytes.Eqv(a, b) && Bytes.Eqv(b, c) ==> Bytes.Eqv(a, c)
+//@   tag transitive
+//@   ensures Bytes.Eqv(a, b) == (len(a) == len(b) && (forall i int :: 0 <= i && i < len(a) ==> a[i] == b[i]))
+//@   tag exact
+//@   ensures Bytes.Eqv(a, b) ==> Bytes.Hash(a) == Bytes.Hash(b)
+//@   tag hashRespectsEqv
